@@ -43,30 +43,30 @@ func kindOf(f wireField) (string, error) {
 	}
 	key := ts + "|" + tag
 	tbl := map[string]string{
-		"uint8|":                "u8",
-		"uint16|":               "u16",
-		"uint32|":               "u32",
-		"uint64|":               "u64",
-		"uint64|uint48":         "u48",
-		"string|":               "cs",
-		"string|txt":            "cs",
-		"[]string|txt":          "cs+",
-		"string|cdomain-name":   "C",
-		"string|domain-name":    "N",
-		"[]string|domain-name":  "N*",
-		"net.IP|a":              "v4",
-		"net.IP|aaaa":           "v6",
-		"string|hex":            "hex",
-		"string|base64":         "b64",
-		"string|base32":         "b32",
-		"string|any":            "raw",
-		"string|octet":          "text",
-		"[]uint16|nsec":         "bm",
-		"[]EDNS0|opt":           "opt",
-		"[]SVCBKeyValue|pairs":  "svc",
-		"[]APLPrefix|apl":       "apl",
-		"string|ipsechost":      "gw",
-		"string|amtrelayhost":   "gw",
+		"uint8|":               "u8",
+		"uint16|":              "u16",
+		"uint32|":              "u32",
+		"uint64|":              "u64",
+		"uint64|uint48":        "u48",
+		"string|":              "cs",
+		"string|txt":           "cs",
+		"[]string|txt":         "cs+",
+		"string|cdomain-name":  "C",
+		"string|domain-name":   "N",
+		"[]string|domain-name": "N*",
+		"net.IP|a":             "v4",
+		"net.IP|aaaa":          "v6",
+		"string|hex":           "hex",
+		"string|base64":        "b64",
+		"string|base32":        "b32",
+		"string|any":           "raw",
+		"string|octet":         "text",
+		"[]uint16|nsec":        "bm",
+		"[]EDNS0|opt":          "opt",
+		"[]SVCBKeyValue|pairs": "svc",
+		"[]APLPrefix|apl":      "apl",
+		"string|ipsechost":     "gw",
+		"string|amtrelayhost":  "gw",
 	}
 	if k, ok := tbl[key]; ok {
 		return k, nil
@@ -139,8 +139,8 @@ var rfcFieldOrder = map[string]string{
 	"DS": "KeyTag Algorithm DigestType Digest", "CDS": "KeyTag Algorithm DigestType Digest", "DLV": "KeyTag Algorithm DigestType Digest", "TA": "KeyTag Algorithm DigestType Digest",
 	"KX": "Preference Exchanger", "TALINK": "PreviousName NextName", "SSHFP": "Algorithm Type FingerPrint",
 	"DNSKEY": "Flags Protocol Algorithm PublicKey", "KEY": "Flags Protocol Algorithm PublicKey", "CDNSKEY": "Flags Protocol Algorithm PublicKey", "RKEY": "Flags Protocol Algorithm PublicKey",
-	"IPSECKEY": "Precedence GatewayType Algorithm GatewayHost PublicKey",
-	"AMTRELAY": "Precedence GatewayType GatewayHost",
+	"IPSECKEY":   "Precedence GatewayType Algorithm GatewayHost PublicKey",
+	"AMTRELAY":   "Precedence GatewayType GatewayHost",
 	"NSEC3":      "Hash Flags Iterations SaltLength Salt HashLength NextDomain TypeBitMap",
 	"NSEC3PARAM": "Hash Flags Iterations SaltLength Salt",
 	"TKEY":       "Algorithm Inception Expiration Mode Error KeySize Key OtherLen OtherData",
